@@ -319,12 +319,17 @@ def c09(tier, seed):
     units = cfg_shards("eof", "eof", 14, seed, dict(streams=2 if q else 8, len=16 if q else 40, cutstep=1))
     units += cfg_shards("tables", "tables", NR, seed, dict(full=0, frac=64), pick=pick_from(TABLE_CFGS, 4, seed + 9))
     units += cfg_shards("crossing", "crossing", 14, seed, dict())
+    # primitives at the tail: every fill state and every tail state (r bits before the end) x reads, peeks
+    # and skips, on the strict memory readers of every word class
+    units += cfg_shards("rstates-strict", "rstates", NR, seed + 2, dict(paths=RP, ops="c02", full=0, images=1),
+                        pick={1, 7, 13, 19, 25, 29, 35, 41, 47, 53})
     return dict(
         needs_gen=True,
         mc=[m for m in reader_mcs(tier) if "strict" in m["name"]],
         rule="valid streams truncated after every backend word, read from the start by every strict reader "
              "configuration with random table options (items inside the data must decode, the first item "
-             "needing a bit beyond the cut must fail) and by zero-extended readers (never fail, see zeros). "
+             "needing a bit beyond the cut must fail) and by zero-extended readers (never fail, see zeros); "
+             "reads, peeks and skips from every tail state of the strict memory readers. "
              "distinct = (configuration, cut, item crosses the cut).",
         units=units,
     )
